@@ -1834,6 +1834,23 @@ def run(ctx):
                    request=line[:4000], driver=ans[:4000], coq=got if got is None else got[:2000],
                    broken="extraction / ocaml driver glue (ocaml/drv.ml, ocaml/drv_c05.ml)")
             seen["extraction-vs-vm_compute"] = len(bad_vm)
+    if not ctx.get("replay"):
+        # the shared bit-exact cipher model against aiohomekit/crypto/chacha20poly1305.py, and the frame model instantiated at that
+        # cipher (Proofs/FrameReal.v) against the real protocol, byte for byte; both evaluated inside Coq (vm_compute)
+        import concurrent.futures as _cf
+        import aeadtie, c05real
+        import sys as _sys
+        with _cf.ThreadPoolExecutor(2) as _ex:
+            f1 = _ex.submit(aeadtie.run, ctx, "full")
+            real_info, real_viols = c05real.run(ctx, _sys.modules[__name__])
+            aead_info, aead_viols = f1.result()
+        cov.extra["aead_bit_exact"] = aead_info
+        cov.extra["realbytes"] = real_info
+        for v in aead_viols + real_viols:
+            seen[v["key"]] = seen.get(v["key"], 0) + 1
+            viols.append(v)
+        for i in range(real_info["out_cases"] + real_info["in_cases"]):
+            cov.case("realbytes/%d" % i, True, sample=None, realbytes="out" if i < real_info["out_cases"] else "in")
     for v in viols:
         v["payload"]["occurrences"] = seen[v["key"]]
     cov.extra["exhaustive"] = True
@@ -1851,6 +1868,9 @@ def run(ctx):
         "is emulated by harness/c05.py::Link, checked by reading CPython 3.12 asyncio/selector_events.py",
         "C05: plaintext handed to the HTTP layer is observed by replacing proto.current_response with a recorder (recv stream) and at "
         "request futures / connection.event_received through the real HttpResponse parser (send, event streams)",
-        "C05: reference cipher = cryptography ChaCha20Poly1305; the model's open is the finite table of the frames the reference sealed",
+        "C05: reference cipher = cryptography ChaCha20Poly1305; in the send/recv/session/wire streams the model's open is the finite table "
+        "of the frames the reference sealed; in the realbytes stream the model runs the bit-exact RFC 8439 cipher of Model/ChaChaPoly.v "
+        "itself (Proofs/FrameReal.v), evaluated by vm_compute, and that cipher model is tied to aiohomekit/crypto/chacha20poly1305.py by "
+        "harness/aeadtie.py (info under aead_bit_exact)",
     ]
     return dict(coverage=cov.to_dict(), violations=viols)
